@@ -437,6 +437,12 @@ func NodeTriggersFuncErrRet(rootNode *RootAssertionNode, nonceGenerator *guard.N
 		return nil, false
 	}
 
+	if rootNode.isType(callExpr.Fun) {
+		// rhs is a conversion (possibly to a function type, e.g., `(func() (int, error))(g)`), not
+		// a function call
+		return nil, false
+	}
+
 	// Get signature of the function call (normal and anonymous both)
 	sig := typeshelper.GetFuncSignature(rootNode.Pass().TypesInfo.TypeOf(callExpr.Fun))
 
